@@ -373,7 +373,7 @@ def gen_program(rng, max_ops=10):
 
 
 def gen_shape_program(rng, kind=None):
-    kind = kind or rng.choice(["hemisphere", "hemisphere_copy", "cylinder", "ring", "box", "two_spheres"])
+    kind = kind or rng.choice(["hemisphere", "hemisphere_copy", "cylinder", "ring", "box", "two_spheres", "sphere_and_copy"])
     ents = []
     n = rng.randint(1, 4)
 
@@ -395,6 +395,11 @@ def gen_shape_program(rng, kind=None):
     elif kind == "two_spheres":
         ents.append(sphere([5.0, 5.0, 5.0]))
         ents.append(sphere([-5.0, 1.0, 0.25]))
+    elif kind == "sphere_and_copy":
+        # the original AND a moved (sometimes scaled) copy of it in one mesh: each needs its own geometry entry
+        ents.append(sphere([5.0, 5.0, 5.0]))
+        ents.append({"kind": "shape", "cls": "Hemisphere", "copy_of": 0, "translate": [rng.choice([-6.0, 4.0, 8.0]), rng.choice([0.0, 3.0]), 0.5],
+                     "scale": rng.choice([None, 2.0, 0.5]), "args": [], "chops": [], "calls": [], "copy": None})
     elif kind == "cylinder":
         e = {"kind": "shape", "cls": "Cylinder", "args": [[0.0, 0.0, 0.0], [0.0, 0.0, 2.0], [0.5, 0.0, 0.0]],
              "chops": [["chop_axial", {"count": n}], ["chop_radial", {"count": n + 1}], ["chop_tangential", {"count": n + 2}]],
@@ -465,12 +470,17 @@ def apply_op_calls(op, calls):
             raise GenError("unknown call %r" % (c,))
 
 
-def build_entity(e):
+def build_entity(e, built=()):
     cb = _cb()
     if e["kind"] == "op":
         op = cb.Loft(cb.Face(e["pts"][:4]), cb.Face(e["pts"][4:]))
         apply_op_calls(op, e["calls"])
         return op
+    if e.get("copy_of") is not None:
+        sh = built[e["copy_of"]].copy().translate(e["translate"])
+        if e.get("scale"):
+            sh = sh.scale(e["scale"])
+        return sh
     cls = getattr(cb, e["cls"])
     sh = cls(*e["args"])
     for c in e["chops"]:
@@ -535,7 +545,9 @@ def run_program(prog, work):
     with warnings.catch_warnings():
         warnings.simplefilter("ignore")
         try:
-            ents = [build_entity(e) for e in prog["entities"]]
+            ents = []
+            for e in prog["entities"]:
+                ents.append(build_entity(e, ents))
         except ex.EdgeCreationError as e:
             raise Discard("edge projected to more than two geometries: %s" % e)
         for g in prog["geometry"]:
@@ -1122,7 +1134,13 @@ def oracle(prog, obs):
     for e in obs["entities"]:
         if e["geom"]:
             for k, v in e["geom"].items():
-                shape_geom[k] = [lex(p, comments=False) for p in v]
+                lv = [lex(p, comments=False) for p in v]
+                if k in shape_geom and shape_geom[k] != lv:
+                    bad.append(("geometry", "two shapes define geometry %s differently (%r / %r): one of them is projected to "
+                                "the other's surface" % (k, shape_geom[k], lv)))
+                shape_geom[k] = lv
+                if got_geom.get(k) != lv and not any(b[0] == "geometry" for b in bad):
+                    bad.append(("geometry", "geometry %s of a built-in shape written as %r, the shape defines %r" % (k, got_geom.get(k), lv)))
     for k, v in exp_geom.items():
         if k in shape_geom:
             continue
@@ -1183,7 +1201,7 @@ def oracle(prog, obs):
 
 
 def describe(prog):
-    kinds = [e["kind"] if e["kind"] == "op" else e["cls"] + ("+copy" if e.get("copy") else "") for e in prog["entities"]]
+    kinds = [e["kind"] if e["kind"] == "op" else e["cls"] + ("+copy" if (e.get("copy") or e.get("copy_of") is not None) else "") for e in prog["entities"]]
     return kinds
 
 
@@ -1240,9 +1258,9 @@ class C06(Prop):
                     "well-formedness against the reference hexahedron, VTK compared; non-trivial = at least one patch or "
                     "projection and the file longer than 150 tokens; distinct by program")
         n = ctx.n(120, 1500)
-        nshape = ctx.n(12, 100)
+        nshape = ctx.n(14, 100)
         progs = list(systematic_programs())
-        kinds = ["hemisphere", "hemisphere_copy", "cylinder", "ring", "box", "two_spheres"]
+        kinds = ["hemisphere", "hemisphere_copy", "cylinder", "ring", "box", "two_spheres", "sphere_and_copy"]
         for i in range(nshape):
             progs.append(gen_shape_program(ctx.rng, kinds[i % len(kinds)] if i < 2 * len(kinds) else None))
         tries = 0
